@@ -100,6 +100,8 @@ type Inbound struct {
 	After int `json:"after,omitempty"`
 	QoS   int `json:"q"`
 	Tag   int `json:"tag"`
+	// Dup: the broker marks the message as a re-delivery (as after a session was resumed)
+	Dup bool `json:"dup,omitempty"`
 }
 
 // Plan is the environment's script.
@@ -490,6 +492,10 @@ func (w *World) clientPacket(t *Transport, p *Pkt) error {
 		w.typeCount[name]++
 		o = w.outcomeFor(k, name, w.typeCount[name])
 		t.reqCount++
+	} else {
+		// acknowledgements the client writes for inbound traffic: addressable by type and count only
+		w.typeCount[name]++
+		o = w.outcomeFor(-1, name, w.typeCount[name])
 	}
 	ev["o"] = o
 	switch o {
@@ -568,7 +574,7 @@ func (w *World) sendInbound(t *Transport, after int) {
 				w.nextInID++
 				id = w.nextInID
 			}
-			w.SendLocked(t, Publish(w.InboundTopic, PayloadOf(in.Tag), in.QoS, id, false, false))
+			w.SendLocked(t, Publish(w.InboundTopic, PayloadOf(in.Tag), in.QoS, id, in.Dup && in.QoS > 0, false))
 		}
 	}
 }
